@@ -86,6 +86,8 @@ def check(cd, tree, extra):
     except Exception as e:
         return (f"encode-raised:{K.exc_signature(e)}", f"{cd.path}: encoding {x_in!r} raised {e!r}")
     tail_b = b if tail == "self" else tail
+    if len(b) % 6 == 3:
+        note("preceded_by_failed_decodes", K.failed_decode_prelude(cd))  # earlier messages of this class were cut short
     src = io.BytesIO(b + tail_b)
     try:
         y = K.entity_reader(cd.cls)(src)
